@@ -128,8 +128,8 @@ def r1(ctx, R):
             if isinstance(a, ast.List) and len(a.elts) == 2 and "group" not in st.func.value.id:
                 vals = a.elts
                 stack_like.add(st.func.value.id)
-            elif st.func.value.id in [unparse(e) for e in ret.value.elts[1:3]] and not isinstance(a, ast.Call):
-                vals = [a]
+            elif st.func.value.id in [unparse(e) for e in ret.value.elts[1:3]] and isinstance(deref(ctx, f, a), (ast.BinOp, ast.Constant, ast.UnaryOp)):
+                vals = [deref(ctx, f, a)]
         elif isinstance(st, ast.Assign) and isinstance(st.targets[0], ast.Subscript) and isinstance(st.targets[0].value, ast.Subscript) and isinstance(st.targets[0].value.value, ast.Name) and st.targets[0].value.value.id in stack_like | {"pp_stack"}:
             vals = [st.value]
         for v in vals:
@@ -468,7 +468,101 @@ def r6(ctx, R):
             R.violation("C08.R6", f.short, k, loc(f, st), f"the cached entry is computed from {sorted(need)} but keyed by {sorted(knames)} only: after #undef/#define of the same name with another body, uses are still replaced by the old body")
 
 
+# ------------------------------------------------------------------ R7
+def _arm_paths(stmts, stack, group, grp_test):
+    """set of (stack delta, group pops, group test seen, open) over all paths through stmts"""
+    states = {(0, 0, False, True)}
+    for st in stmts:
+        nxt = set()
+        for d, gp, seen, open_ in states:
+            if not open_:
+                nxt.add((d, gp, seen, False))
+                continue
+            if isinstance(st, ast.If):
+                seen2 = seen or (st is grp_test)
+                cd, cg = _count(st.test, stack, group)
+                for br in (st.body, st.orelse):
+                    for d2, g2, s2, o2 in _arm_paths(br, stack, group, grp_test):
+                        nxt.add((d + cd + d2, gp + cg + g2, seen2 or s2, o2))
+            elif isinstance(st, (ast.Continue, ast.Break, ast.Return)):
+                nxt.add((d, gp, seen, False))
+            elif isinstance(st, (ast.For, ast.While, ast.Try, ast.With)):
+                cd, cg = _count(st, stack, group)
+                nxt.add((d + cd, gp + cg, seen, True))
+            else:
+                cd, cg = _count(st, stack, group)
+                nxt.add((d + cd, gp + cg, seen, True))
+        states = nxt
+    return states
+
+
+def _count(node, stack, group):
+    d = g = 0
+    for c in ast.walk(node):
+        if isinstance(c, ast.Call) and isinstance(c.func, ast.Attribute) and isinstance(c.func.value, ast.Name):
+            if c.func.value.id == stack:
+                d += {"append": 1, "pop": -1}.get(c.func.attr, 0)
+            elif c.func.value.id == group and c.func.attr == "pop":
+                g += 1
+    return d, g
+
+
+def r7(ctx, R):
+    R.rule("C08.R7", "the stack of open conditionals is balanced on every path: an opening directive pushes one entry, #elif/#else replace the top, #endif pops one entry and always settles its #elif group first", floor=5, confirmed=6)
+    f = pp_func(ctx)
+    ret = next(r for r in f.node.body if isinstance(r, ast.Return) and isinstance(r.value, ast.Tuple))
+    regions = unparse(ret.value.elts[1])
+    stack = group = None
+    for c in calls_in(f.node):
+        if isinstance(c.func, ast.Attribute) and c.func.attr == "append" and unparse(c.func.value) == regions and c.args and isinstance(c.args[0], ast.Call) and isinstance(c.args[0].func, ast.Attribute) and c.args[0].func.attr == "pop":
+            stack = unparse(c.args[0].func.value)
+    for c in calls_in(f.node):
+        if isinstance(c.func, ast.Attribute) and c.func.attr == "append" and c.args and isinstance(c.args[0], ast.List) and c.args[0].elts and unparse(c.args[0].elts[0]) == f"len({stack})":
+            group = unparse(c.func.value)
+    if not stack or not group:
+        raise AnalysisError("preprocess_file: conditional stack / #elif group list not identified")
+    # arms
+    arms = {}
+    opening = None
+    for n in ctx.m.walk_own(f.node):
+        if isinstance(n, ast.If) and isinstance(n.test, ast.Compare) and isinstance(n.test.comparators[0], ast.Constant) and isinstance(n.test.comparators[0].value, str) and ".group(1)" in unparse(n.test.left):
+            kw = n.test.comparators[0].value.strip()
+            if kw in ("elif", "else", "endif"):
+                arms[kw] = n
+        if isinstance(n, ast.If) and isinstance(n.test, ast.Name) and any(isinstance(b, ast.Continue) for b in n.body) and _count(n, stack, group)[0] > 0:
+            opening = n
+    if set(arms) != {"elif", "else", "endif"} or opening is None:
+        raise AnalysisError(f"preprocess_file: conditional arms not identified ({sorted(arms)}, opening={opening is not None})")
+    grp_test = next((s_ for b_ in arms["endif"].body for s_ in ast.walk(b_) if isinstance(s_, ast.If) and _count(ast.Module(body=s_.body, type_ignores=[]), stack, group)[1] > 0), None)
+    want = {"opening #if/#ifdef/#ifndef": (opening.body, 1), "#elif": (arms["elif"].body, 0), "#else": (arms["else"].body, 0), "#endif": (arms["endif"].body, -1)}
+    for what, (body, delta) in want.items():
+        paths = _arm_paths(body, stack, group, grp_test)
+        bad = sorted({d for d, _, _, _ in paths if d != delta})
+        if bad:
+            R.violation("C08.R7", f.short, f"{what}: stack delta {delta:+d} on every path", loc(f, body[0]), f"a path through this arm changes the number of open conditionals by {bad[0]:+d} instead of {delta:+d}: every later #else/#endif is matched with the wrong #if")
+        else:
+            R.ok("C08.R7", f.short, f"{what}: stack delta {delta:+d} on every path", loc(f, body[0]), f"{len(paths)} path classes")
+    if grp_test is None:
+        R.violation("C08.R7", f.short, "#endif settles its #elif group", loc(f, arms["endif"]), "the #endif arm never removes the group entry of a finished #if/#elif chain")
+    else:
+        paths = _arm_paths(arms["endif"].body, stack, group, grp_test)
+        if all(seen for _, _, seen, _ in paths):
+            R.ok("C08.R7", f.short, "#endif settles its #elif group on every path", loc(f, grp_test))
+        else:
+            R.violation("C08.R7", f.short, "#endif settles its #elif group on every path", loc(f, grp_test), "a path through the #endif arm leaves without testing/removing the finished chain's group entry: the stale entry makes the next #if/#elif chain at the same depth believe a branch was already taken, and its true #elif branch is skipped")
+    # an #elif group entry is pushed only for the first #elif of a chain
+    gpush = [c for c in calls_in(arms["elif"]) if isinstance(c.func, ast.Attribute) and c.func.attr == "append" and unparse(c.func.value) == group]
+    F = ctx.facts(f, interproc=False)
+    for c in gpush:
+        facts = F.at(c) or set()
+        if any(b[0] == "cond" and b[2] is True and group in b[1] and f"len({stack})" in b[1] for b in facts):
+            R.ok("C08.R7", f.short, "group entry pushed once per chain", loc(f, c))
+        else:
+            R.violation("C08.R7", f.short, "group entry pushed once per chain", loc(f, c), "a group entry is pushed for every #elif, not only for the first of a chain")
+
+
 def run(ctx, R):
+    r7(ctx, R)
     r1(ctx, R)
     r2(ctx, R)
     r3(ctx, R)
